@@ -54,6 +54,14 @@ theorem clearIndex_expected : clearIndex 16 0 = 0 ∧ clearIndex 16 20 = 16 ∧ 
 /-- propose ids of two lives of a node differ -/
 theorem pidSeededPerLife_expected : pidSeededPerLife = true := by rfl
 
+/-- the commit loop of a partition waits for the start-up replay; the PT load path: start the raft
+node, apply the replay, open the loop -/
+theorem commitLoopAfterReplay_expected : commitLoopAfterReplay = true := by rfl
+theorem assignReplayEvents_expected : assignReplayEvents = ["start", "replay", "open"] := by rfl
+
+/-- the column-store flush gives the signal in the flush goroutine, after the commit -/
+theorem csFlushEvents_expected : csFlushEvents = ["flag0", "switch", "commit", "signal", "flag1"] := by rfl
+
 theorem src_genProposeData_expected : src_genProposeData = "{ var minIndex uint64 if minMatch == math.MaxUint64 { minIndex = index } else { memberFilId, _ := n.Store.SlotGe(minMatch) filId, _ := n.Store.SlotGe(index) err := n.comparePeerFileIdWithLeaderFileId(memberFilId, filId) if err != nil { minIndex = uint64(math.Min(float64(minMatch), float64(index))) } else { minIndex = index } } logger.GetLogger().Info(\"genProposeData marshal index is\", zap.Uint64(\"minIndex\", minIndex), zap.String(\"db\", n.database), zap.Uint32(\"pt\", n.ptId)) var dst []byte dst = encoding.MarshalUint64(dst, minIndex) wrapper := &raftlog.DataWrapper{ Data: dst, DataType: raftlog.ClearEntryLog, } marshal := wrapper.Marshal() return marshal }" := by rfl
 
 theorem src_prepareDelete_expected : src_prepareDelete = "{ progress := n.node.Status().Progress var minMatch uint64 = math.MaxUint64 for _, v := range progress { match := v.Match if match < minMatch { minMatch = match } } marshal := n.genProposeData(index, minMatch) return marshal }" := by rfl
@@ -127,5 +135,7 @@ theorem src_getNewRg_expected : src_getNewRg = "{ dbRgs, ok := data.ReplicaGroup
 theorem src_updateReplication_expected : src_updateReplication = "{ rgs, ok := data.ReplicaGroups[database] if !ok { return 0, errno.NewError(errno.DatabaseNotFound, database) } rg := &rgs[rgId] oldMasterPtID := rg.MasterPtID rg.MasterPtID = masterId if len(peers) > 0 { rg.Peers = make([]Peer, len(peers)) for i := range peers { rg.Peers[i].ID = peers[i].GetID() rg.Peers[i].PtRole = Role(peers[i].GetRole()) } } return oldMasterPtID, nil }" := by rfl
 
 theorem src_getAliveShardsForRepDB_expected : src_getAliveShardsForRepDB = "{ repGroups := c.DBRepGroups(database) aliveShardIdxes := make([]int, 0, len(sgi.Shards)/replicaN) addedRGID := make(map[uint32]interface{}, 0) c.mu.RLock() ptView := c.cacheData.PtView[database] for i := range sgi.Shards { for _, ptId := range sgi.Shards[i].Owners { if repGroups[ptView[ptId].RGID].Status == meta2.Health && repGroups[ptView[ptId].RGID].IsMasterPt(ptId) { aliveShardIdxes = append(aliveShardIdxes, i) addedRGID[ptView[ptId].RGID] = nil break } else if repGroups[ptView[ptId].RGID].Status == meta2.SubHealth && ptView[ptId].Status == meta2.Online { if _, ok := addedRGID[ptView[ptId].RGID]; !ok { aliveShardIdxes = append(aliveShardIdxes, i) addedRGID[ptView[ptId].RGID] = nil break } } } } c.mu.RUnlock() return aliveShardIdxes }" := by rfl
+
+theorem src_startCommitLoop_expected : src_startCommitLoop = "{ go func() { <-replayDone readCommitFromRaft(node, client, storage) }() }" := by rfl
 
 end OG.C05.Facts
